@@ -7,9 +7,10 @@ pub mod c14;
 pub mod c15;
 pub mod c17;
 pub mod c18;
+pub mod c19;
 pub mod c20;
 
-pub const ALL: &[&str] = &["C02", "C06", "C14", "C15", "C17", "C18", "C20"];
+pub const ALL: &[&str] = &["C02", "C06", "C14", "C15", "C17", "C18", "C19", "C20"];
 
 pub fn get(id: &str, tier: Tier) -> Option<Prop> {
   Some(match id {
@@ -19,6 +20,7 @@ pub fn get(id: &str, tier: Tier) -> Option<Prop> {
     "C15" => c15::prop(tier),
     "C17" => c17::prop(tier),
     "C18" => c18::prop(tier),
+    "C19" => c19::prop(tier),
     "C20" => c20::prop(tier),
     _ => return None,
   })
